@@ -5,7 +5,7 @@ import glob, json, os, re, subprocess, sys, time
 
 ROOT = sys.argv[1]
 ONLY = set(sys.argv[2:])
-OUT = "/tmp/confirm"
+OUT = os.environ.get("CONFIRM_OUT", "/tmp/confirm")
 os.makedirs(OUT, exist_ok=True)
 RES = os.path.join(OUT, "results.json")
 results = json.load(open(RES)) if os.path.exists(RES) else {}
@@ -29,8 +29,9 @@ for patch in sorted(glob.glob(os.path.join(ROOT, "*", "*", "patch.diff"))):
         continue
     wt = os.path.join(OUT, "wt_" + name.replace("/", "_"))
     sh(f"git -C /repo worktree remove --force {wt}", "/")
-    rc, out = sh(f"git -C /repo worktree add -q --detach {wt} HEAD", "/")
-    r = {"head": sh("git -C /repo rev-parse --short HEAD", "/")[1].strip()}
+    base = os.environ.get("CONFIRM_BASE", "HEAD")  # the tree the seed was written against
+    rc, out = sh(f"git -C /repo worktree add -q --detach {wt} {base}", "/")
+    r = {"head": sh(f"git -C /repo rev-parse --short {base}", "/")[1].strip()}
     try:
         env = {"PYTHONPATH": wt}
         rc0, o0 = sh(f"/venv/bin/python {demo}", wt, 1800, env)
